@@ -78,17 +78,33 @@ def line_ops(g, l):
     return ops
 
 
+PENDING = [["# c", "X\tcustom\trecord\txx:i:1"], ["L\tA\t+\tB\t+\t4M1D2M"], ["H\txx:i:1", "P\tp\tA+,B+\t*"], ["# c"], ["C\tA\t+\tB\t+\t0\t*", "Y\tf"]]
+
+
 def check(case):
     version, ids, vlevel, seed = case
-    lines = universe.lines_of(version, ids)
     rng = random.Random(seed)
     fails = []
-    g = gfapy.Gfa(lines, vlevel=vlevel)
+    if version == "pending":
+        # a Gfa whose version is still undecided and which holds lines kept aside: the queue, the version and the guess are observable
+        lines = list(ids)
+        g = gfapy.Gfa(vlevel=vlevel)
+        for l in lines:
+            g.add_line(l)
+        snap0 = state.snapshot
+        def snap(gg):
+            d = snap0(gg)
+            d["version"] = (gg.version, gg._version_guess, tuple(str(x) for x in gg._line_queue), len(gg.lines))
+            return d
+    else:
+        lines = universe.lines_of(version, ids)
+        g = gfapy.Gfa(lines, vlevel=vlevel)
+        snap = state.snapshot
     ops = [("gfa", n, f) for n, f in gfa_ops(g)]
     for l in state.registered(g):
         ops += [("%s" % l.record_type, n, f) for n, f in line_ops(g, l)]
     rng.shuffle(ops)
-    before = state.snapshot(g)
+    before = snap(g)
     nops = 0
     for who, name, f in ops:
         r1 = r2 = None
@@ -111,7 +127,7 @@ def check(case):
         if r1 != r2:
             fails.append(dict(signature="C10:asking-twice-differs:%s.%s" % (who, opname), what="%s -> %s then %s" % (name, harness.short(r1, 150), harness.short(r2, 150)),
                               case=dict(version=version, lines=lines, vlevel=vlevel, op=name)))
-        after = state.snapshot(g)
+        after = snap(g)
         if after != before:
             fails.append(dict(signature="C10:state-changed-by:%s.%s%s" % (who, opname, ":vlevel0" if vlevel == 0 else ""), what=harness.short("; ".join(state.snap_diff(before, after)), 400),
                               case=dict(version=version, lines=lines, vlevel=vlevel, op=name),
@@ -134,6 +150,10 @@ def cases(tier, seed):
         for ids in docs:
             for vlevel in (0, 1, 3):
                 out.append((version, ids, vlevel, rng.randrange(10**6)))
+    for lines in PENDING:
+        for vlevel in (0, 1, 3):
+            for k in range(3):
+                out.append(("pending", tuple(lines), vlevel, rng.randrange(10**6)))
     return out
 
 
